@@ -466,9 +466,10 @@ def effect_tokens(F, E, f, depth=0, seen=None):
     toks = set()
     qn = {}
     for i, q, op in queue_ops(f): qn[i] = (q, op)
-    # all blocks, also those the constant folder prunes: whether a branch on the result of a tag-dispatched helper is folded depends
-    # on how the test is written (`if (helper())` folds, `bool b = helper(); if (b)` does not), which must not make siblings differ
-    for i in f.linear_nodes(reachable_only=False):
+    # live blocks only (a statement under `if (<constant for this instantiation>)` and a tag-dispatched overload that does nothing are
+    # the same behaviour); the folder sees through calls with one constant return and through const locals, so `if (helper())` and
+    # `const bool b = helper(); if (b)` fold alike
+    for i in f.linear_nodes(reachable_only=True):
         n = f.nodes[i]
         if not n: continue
         k = n['k']
